@@ -14,6 +14,8 @@ structure Good (s : St) : Prop where
   noLeak : ∀ o ∈ s.objs, o.ctrl = .xr → o.deleting = false → key o ∈ s.refs
   obsUniq : ∀ o1 ∈ s.objs, ∀ o2 ∈ s.objs, key o1 ∈ s.refs → key o2 ∈ s.refs →
     o1.annot = o2.annot → o1.annot ≠ "" → o1 = o2
+  /-- every object recorded as foreign-controlled at the start is still there, byte for byte -/
+  frame : ∀ o ∈ s.foreign0, o.ctrl = .other ∧ o ∈ s.objs
 
 /-! ### store lemmas -/
 
@@ -104,12 +106,15 @@ structure Shrunk (s s' : St) : Prop where
   nodup : (s'.objs.map key).Nodup
   sub : ∀ o' ∈ s'.objs, ∃ o ∈ s.objs, key o' = key o ∧ o'.annot = o.annot ∧ o'.ctrl = o.ctrl ∧
     (o'.deleting = false → o' = o)
+  foreign0 : s'.foreign0 = s.foreign0
+  keepForeign : ∀ o ∈ s.objs, o.ctrl = .other → o ∈ s'.objs
 
 theorem Shrunk.rfl' {s : St} (hg : Good s) : Shrunk s s :=
-  ⟨rfl, hg.nodup, fun o ho => ⟨o, ho, rfl, rfl, rfl, fun _ => rfl⟩⟩
+  ⟨rfl, hg.nodup, fun o ho => ⟨o, ho, rfl, rfl, rfl, fun _ => rfl⟩, rfl, fun _ h _ => h⟩
 
 theorem Shrunk.trans {s1 s2 s3 : St} (h12 : Shrunk s1 s2) (h23 : Shrunk s2 s3) : Shrunk s1 s3 := by
-  refine ⟨h23.refs.trans h12.refs, h23.nodup, ?_⟩
+  refine ⟨h23.refs.trans h12.refs, h23.nodup, ?_, h23.foreign0.trans h12.foreign0,
+    fun o ho hc => h23.keepForeign o (h12.keepForeign o ho hc) hc⟩
   intro o3 ho3
   obtain ⟨o2, ho2, hk, ha, hc, hd⟩ := h23.sub o3 ho3
   obtain ⟨o1, ho1, hk', ha', hc', hd'⟩ := h12.sub o2 ho2
@@ -120,7 +125,11 @@ theorem Shrunk.trans {s1 s2 s3 : St} (h12 : Shrunk s1 s2) (h23 : Shrunk s2 s3) :
   exact hd' h
 
 theorem Shrunk.good {s s' : St} (hg : Good s) (h : Shrunk s s') : Good s' := by
-  refine ⟨h.nodup, ?_, ?_, ?_⟩
+  refine ⟨h.nodup, ?_, ?_, ?_, ?_⟩
+  rotate_right
+  · intro o ho
+    rw [h.foreign0] at ho
+    exact ⟨(hg.frame o ho).1, h.keepForeign o (hg.frame o ho).2 (hg.frame o ho).1⟩
   · intro o' ho'
     obtain ⟨o, ho, hk, _⟩ := h.sub o' ho'
     have := hg.named o ho
@@ -165,41 +174,53 @@ theorem exec_delete_nofin {s : St} {k n : String} {o : CObj} (h : findObj s.objs
     exec s (.delete k n) = ({ s with objs := removeObj s.objs k n }, .ok) := by
   simp [exec, h, hf]
 
-theorem exec_delete_shrunk (s : St) (hn : (s.objs.map key).Nodup) (k n : String) :
+theorem exec_delete_shrunk (s : St) (hn : (s.objs.map key).Nodup) (k n : String)
+    (hnf : ∀ x ∈ s.objs, key x = ⟨k, n⟩ → x.ctrl ≠ .other) :
     Shrunk s (exec s (.delete k n)).1 ∧
     ∀ o ∈ (exec s (.delete k n)).1.objs, key o = ⟨k, n⟩ → o.deleting = true := by
+  have hkeep : ∀ o ∈ s.objs, o.ctrl = .other → ¬ (o.kind = k ∧ o.name = n) :=
+    fun o ho hc hm => hnf o ho ((key_eq_iff o k n).mpr hm) hc
   cases hf : findObj s.objs k n with
   | none =>
     rw [exec_delete_none hf]
-    refine ⟨⟨rfl, hn, fun o ho => ⟨o, ho, rfl, rfl, rfl, fun _ => rfl⟩⟩, ?_⟩
+    refine ⟨⟨rfl, hn, fun o ho => ⟨o, ho, rfl, rfl, rfl, fun _ => rfl⟩, rfl, fun _ h _ => h⟩, ?_⟩
     intro o ho hk
     exact absurd ((key_eq_iff o k n).mp hk) (findObj_none hf o ho)
   | some o0 =>
     cases hfin : o0.fin with
     | true =>
       rw [exec_delete_fin hf hfin]
-      refine ⟨⟨rfl, ?_, ?_⟩, ?_⟩
-      · show ((mapObj s.objs k n _).map key).Nodup
+      have h1 : ((mapObj s.objs k n (fun o => { o with deleting := true })).map key).Nodup := by
         rw [map_key_mapObj (f := fun o => { o with deleting := true }) (fun o => rfl)]; exact hn
-      · intro o' ho'
+      have h2 : ∀ o' ∈ mapObj s.objs k n (fun o => { o with deleting := true }),
+          ∃ o ∈ s.objs, key o' = key o ∧ o'.annot = o.annot ∧ o'.ctrl = o.ctrl ∧ (o'.deleting = false → o' = o) := by
+        intro o' ho'
         obtain ⟨o, ho, he⟩ := mem_mapObj.mp ho'
         refine ⟨o, ho, ?_⟩
         subst he
         split
         · exact ⟨rfl, rfl, rfl, fun h => by simp at h⟩
         · exact ⟨rfl, rfl, rfl, fun _ => rfl⟩
-      · intro o' ho' hk
-        obtain ⟨o, ho, he⟩ := mem_mapObj.mp ho'
-        subst he
-        by_cases hm : o.kind = k ∧ o.name = n
-        · simp [hm]
-        · simp only [hm, if_false] at hk ⊢
-          exact absurd ((key_eq_iff o k n).mp hk) hm
+      have h3 : ∀ o ∈ s.objs, o.ctrl = .other → o ∈ mapObj s.objs k n (fun o => { o with deleting := true }) := by
+        intro o ho hc
+        apply mem_mapObj.mpr
+        refine ⟨o, ho, ?_⟩
+        simp [hkeep o ho hc]
+      refine ⟨⟨rfl, h1, h2, rfl, h3⟩, ?_⟩
+      intro o' ho' hk
+      obtain ⟨o, ho, he⟩ := mem_mapObj.mp ho'
+      subst he
+      by_cases hm : o.kind = k ∧ o.name = n
+      · simp [hm]
+      · simp only [hm, if_false] at hk ⊢
+        exact absurd ((key_eq_iff o k n).mp hk) hm
     | false =>
       rw [exec_delete_nofin hf hfin]
-      refine ⟨⟨rfl, nodup_removeObj hn, ?_⟩, ?_⟩
+      refine ⟨⟨rfl, nodup_removeObj hn, ?_, rfl, ?_⟩, ?_⟩
       · intro o' ho'
         exact ⟨o', (mem_removeObj.mp ho').1, rfl, rfl, rfl, fun _ => rfl⟩
+      · intro o ho hc
+        exact mem_removeObj.mpr ⟨ho, hkeep o ho hc⟩
       · intro o' ho' hk
         exact absurd ((key_eq_iff o' k n).mp hk) (mem_removeObj.mp ho').2
 
@@ -295,7 +316,27 @@ theorem mem_of_obsLookup {obs : Obs} {a : String} {o : CObj} (h : obsLookup obs 
 /-- what the observe loop has established after processing the references in `done` -/
 def ObsOKp (s : St) (done : List Ref) (obs : Obs) : Prop :=
   (∀ o ∈ s.objs, key o ∈ done → o.ctrl ≠ .other → o.annot ≠ "" ∧ obsLookup obs o.annot = some o) ∧
-  (∀ a o, obsLookup obs a = some o → o ∈ s.objs ∧ key o ∈ s.refs ∧ o.ctrl ≠ .other ∧ o.annot = a ∧ a ≠ "")
+  (∀ a o, obsLookup obs a = some o → o ∈ s.objs ∧ key o ∈ s.refs ∧ o.ctrl ≠ .other ∧ o.annot = a ∧ a ≠ "") ∧
+  (∀ p ∈ obs, p.2 ∈ s.objs ∧ p.2.ctrl ≠ .other)
+
+theorem obs_elems_ok {s : St} {done : List Ref} {obs : Obs} (h : ObsOKp s done obs) :
+    ∀ p ∈ obs, p.2 ∈ s.objs ∧ p.2.ctrl ≠ .other := h.2.2
+
+theorem mem_obsInsert {obs : Obs} {n : String} {o : CObj} {p : String × CObj} (h : p ∈ obsInsert obs n o) :
+    p ∈ obs ∨ p = (n, o) := by
+  induction obs with
+  | nil => simp [obsInsert] at h; exact Or.inr h
+  | cons q qs ih =>
+    unfold obsInsert at h
+    split at h
+    · rcases List.mem_cons.mp h with rfl | h'
+      · exact Or.inr rfl
+      · exact Or.inl (List.mem_cons_of_mem _ h')
+    · rcases List.mem_cons.mp h with rfl | h'
+      · exact Or.inl (List.mem_cons_self ..)
+      · rcases ih h' with h'' | h''
+        · exact Or.inl (List.mem_cons_of_mem _ h'')
+        · exact Or.inr h''
 
 theorem obsOKp_skip {s : St} {done : List Ref} {obs : Obs} (r : Ref) (h : ObsOKp s done obs)
     (hr : ∀ o ∈ s.objs, key o = r → o.ctrl = .other) : ObsOKp s (done ++ [r]) obs := by
@@ -323,14 +364,19 @@ theorem obsOKp_insert {s : St} (hg : Good s) {done : List Ref} {obs : Obs} (r : 
       have : o2 = o := eq_of_key_eq hg.nodup ho2 ho (hk2.trans hk.symm)
       subst this
       exact ⟨ha, obsLookup_insert_self _ _ _⟩
-  · intro a o2 hl
-    by_cases he : a = o.annot
-    · subst he
-      rw [obsLookup_insert_self] at hl
-      cases hl
-      exact ⟨ho, hk ▸ hr, hc, rfl, ha⟩
-    · rw [obsLookup_insert_ne _ _ _ _ he] at hl
-      exact h.2 a o2 hl
+  · refine ⟨?_, ?_⟩
+    · intro a o2 hl
+      by_cases he : a = o.annot
+      · subst he
+        rw [obsLookup_insert_self] at hl
+        cases hl
+        exact ⟨ho, hk ▸ hr, hc, rfl, ha⟩
+      · rw [obsLookup_insert_ne _ _ _ _ he] at hl
+        exact h.2.1 a o2 hl
+    · intro p hp
+      rcases mem_obsInsert hp with hp | rfl
+      · exact h.2.2 p hp
+      · exact ⟨ho, hc⟩
 
 theorem safe_observeFn {s : St} (hg : Good s) (lrv : Nat) (k : Obs → P) :
     ∀ (rs done : List Ref) (acc : Obs), (∀ r ∈ rs, r ∈ s.refs) → (∀ r ∈ done, r ∈ s.refs) → ObsOKp s done acc →
@@ -480,34 +526,39 @@ theorem safe_renderFn {s : St} (hg : Good s) (lrv : Nat) (obs : Obs) (ds0 : List
 
 theorem safe_gcFn (lrv : Nat) (k : P) :
     ∀ (os : List CObj) (s : St), Good s →
+      (∀ o ∈ os, ∀ x ∈ s.objs, key x = key o → x.ctrl ≠ .other) →
       (∀ s', Shrunk s s' → (∀ o ∈ os, ∀ o' ∈ s'.objs, key o' = key o → o'.deleting = true) → Safe sem Good k s') →
       Safe sem Good (gcFn lrv os k) s := by
   intro os
   induction os with
   | nil =>
-    intro s hg hk
+    intro s hg _ hk
     simp only [gcFn]
     exact hk s (Shrunk.rfl' hg) (by intro o ho; cases ho)
   | cons o os ih =>
-    intro s hg hk
+    intro s hg hnf hk
     simp only [gcFn]
     apply safe_wcall hg
     · rw [exec_gcUpdate_state]; exact hg
     · intro _ _
       rw [exec_gcUpdate_state]
       obtain ⟨hsh, hdead⟩ := exec_delete_shrunk s hg.nodup o.kind o.name
+        (by intro x hx hkx; exact hnf o (List.mem_cons_self ..) x hx (by simpa [key] using hkx))
       have hg1 := hsh.good hg
       apply safe_wcall hg
       · exact hg1
       · intro _ _
         apply ih _ hg1
+        · intro o' ho' x hx hkx
+          obtain ⟨x0, hx0, hk0, _, hc0, _⟩ := hsh.sub x hx
+          rw [hc0]
+          exact hnf o' (List.mem_cons_of_mem _ ho') x0 hx0 (hk0 ▸ hkx)
         intro s' hs' hd'
         apply hk s' (hsh.trans hs')
         intro x hx
         rcases List.mem_cons.mp hx with rfl | hx
         · exact hs'.dead_persist (key x) (by intro o' ho' hk'; exact hdead o' ho' (by simpa [key] using hk'))
         · exact hd' x hx
-
 
 /-! ### after the references are persisted: the apply loop -/
 
@@ -522,9 +573,10 @@ structure Mid (s : St) (ents : List Ent) : Prop where
   noLeak : ∀ o ∈ s.objs, o.ctrl = .xr → o.deleting = false → key o ∈ s.refs
   tagged : ∀ o ∈ s.objs, key o ∈ s.refs → ∃ e ∈ ents, key o = e.2 ∧ o.annot = e.1
   inj : ∀ e1 ∈ ents, ∀ e2 ∈ ents, e1.1 = e2.1 → e1 = e2
+  frame : ∀ o ∈ s.foreign0, o.ctrl = .other ∧ o ∈ s.objs
 
 theorem Mid.good {s : St} {ents : List Ent} (h : Mid s ents) : Good s := by
-  refine ⟨h.nodup, h.namedObjs, h.noLeak, ?_⟩
+  refine ⟨h.nodup, h.namedObjs, h.noLeak, ?_, h.frame⟩
   intro o1 ho1 o2 ho2 hk1 hk2 ha _
   obtain ⟨n1, hn1, e1, a1⟩ := h.tagged o1 ho1 hk1
   obtain ⟨n2, hn2, e2, a2⟩ := h.tagged o2 ho2 hk2
@@ -532,18 +584,20 @@ theorem Mid.good {s : St} {ents : List Ent} (h : Mid s ents) : Good s := by
   subst this
   exact eq_of_key_eq h.nodup ho1 ho2 (e1.trans e2.symm)
 
-theorem Mid.congr {s s' : St} {ents : List Ent} (h : Mid s ents) (hr : s'.refs = s.refs) (ho : s'.objs = s.objs) :
-    Mid s' ents := by
-  refine ⟨ho ▸ h.nodup, ho ▸ h.namedObjs, ?_, ?_, ?_, h.inj⟩
+theorem Mid.congr {s s' : St} {ents : List Ent} (h : Mid s ents) (hr : s'.refs = s.refs) (ho : s'.objs = s.objs)
+    (hf : s'.foreign0 = s.foreign0) : Mid s' ents := by
+  refine ⟨ho ▸ h.nodup, ho ▸ h.namedObjs, ?_, ?_, ?_, h.inj, ?_⟩
   · rw [hr]; exact h.refs
   · rw [hr, ho]; exact h.noLeak
   · rw [hr, ho]; exact h.tagged
+  · rw [hf, ho]; exact h.frame
 
 /-- writing (creating or overwriting) the object an entry refers to, with the entry's
 annotation and the XR as controller, keeps the invariant -/
 theorem mid_write {s : St} {ents : List Ent} (h : Mid s ents) (e : Ent) (he : e ∈ ents) (hne : e.2.name ≠ "")
     (f : CObj → CObj) (hfk : ∀ o, key (f o) = key o) (hfa : ∀ o, (f o).annot = e.1)
-    (newObj : CObj) (hnk : key newObj = e.2) (hna : newObj.annot = e.1) :
+    (newObj : CObj) (hnk : key newObj = e.2) (hna : newObj.annot = e.1)
+    (hnf : ∀ o, findObj s.objs e.2.kind e.2.name = some o → o.ctrl ≠ .other) :
     Mid { s with objs := match findObj s.objs e.2.kind e.2.name with
                           | some _ => mapObj s.objs e.2.kind e.2.name f
                           | none => s.objs ++ [newObj] } ents := by
@@ -554,7 +608,7 @@ theorem mid_write {s : St} {ents : List Ent} (h : Mid s ents) (e : Ent) (he : e 
     have hnew : ∀ o ∈ s.objs, key o ≠ e.2 := by
       intro o ho hk
       exact findObj_none hf o ho ((key_eq_iff _ _ _).mp (by rw [hk]))
-    refine ⟨?_, ?_, h.refs, ?_, ?_, h.inj⟩
+    refine ⟨?_, ?_, h.refs, ?_, ?_, h.inj, fun o ho => ⟨(h.frame o ho).1, List.mem_append_left _ (h.frame o ho).2⟩⟩
     · simp only [List.map_append, List.map_cons, List.map_nil]
       apply List.nodup_append.mpr
       refine ⟨h.nodup, by simp, ?_⟩
@@ -580,7 +634,17 @@ theorem mid_write {s : St} {ents : List Ent} (h : Mid s ents) (e : Ent) (he : e 
       · simp at ho; subst ho; exact ⟨e, he, hnk, hna⟩
   | some o0 =>
     simp only []
-    refine ⟨?_, ?_, h.refs, ?_, ?_, h.inj⟩
+    have hframe : ∀ o ∈ s.foreign0, o.ctrl = .other ∧ o ∈ mapObj s.objs e.2.kind e.2.name f := by
+      intro o ho
+      obtain ⟨hc, hm⟩ := h.frame o ho
+      refine ⟨hc, mem_mapObj.mpr ⟨o, hm, ?_⟩⟩
+      have hne : ¬ (o.kind = e.2.kind ∧ o.name = e.2.name) := by
+        intro hk
+        obtain ⟨hm0, hk0, hn0⟩ := findObj_some hf
+        have : o = o0 := eq_of_key_eq h.nodup hm hm0 (by simp [key, hk.1, hk.2, hk0, hn0])
+        exact hnf o0 hf (this ▸ hc)
+      simp [hne]
+    refine ⟨?_, ?_, h.refs, ?_, ?_, h.inj, hframe⟩
     · show ((mapObj s.objs _ _ _).map key).Nodup
       rw [map_key_mapObj hfk]
       exact h.nodup
@@ -615,11 +679,12 @@ theorem mid_apply {s : St} {ents : List Ent} (h : Mid s ents) (e : Ent) (he : e 
   have hw := mid_write h e he hne (fun o => { o with annot := e.1, ctrl := .xr, content := c, ssa := true })
     (fun _ => rfl) (fun _ => rfl) ⟨e.2.kind, e.2.name, e.1, .xr, false, false, c, true⟩ rfl rfl
   cases hf : findObj s.objs e.2.kind e.2.name with
-  | none => simp only [exec, hf]; simpa [hf] using hw
+  | none => simp only [exec, hf]; simpa [hf] using hw (by intro o ho; rw [hf] at ho; cases ho)
   | some o0 =>
     by_cases hc0 : o0.ctrl = .other
     · simp only [exec, hf, hc0, if_true]; exact h
-    · simp only [exec, hf, hc0, if_false]; simpa [hf] using hw
+    · simp only [exec, hf, hc0, if_false]
+      simpa [hf] using hw (by intro o ho; rw [hf] at ho; cases ho; exact hc0)
 
 theorem safe_applyFn (lrv : Nat) (named : List Named) (ents : List Ent) (k : Bool → P) :
     ∀ (l : List Named) (s : St) (b : Bool), Mid s ents →
@@ -673,6 +738,9 @@ theorem exec_patchRefs_refs (s : St) (r : List Ref) : (exec s (.patchRefs r)).1.
 theorem exec_patchRefs_objs (s : St) (r : List Ref) : (exec s (.patchRefs r)).1.objs = s.objs := by
   simp only [exec]; split <;> rfl
 
+theorem exec_patchRefs_foreign0 (s : St) (r : List Ref) : (exec s (.patchRefs r)).1.foreign0 = s.foreign0 := by
+  simp only [exec]; split <;> rfl
+
 /-- The heart of C01: when the new references are persisted, every live composed
 resource controlled by the XR is among them. -/
 theorem mid_after_patch {s0 s3 : St} (hg : Good s0) {obs : Obs} (hobs : ObsOKp s0 s0.refs obs)
@@ -688,10 +756,12 @@ theorem mid_after_patch {s0 s3 : St} (hg : Good s0) {obs : Obs} (hobs : ObsOKp s
     have he := hn.entry n hnm
     simp only [Entry, hgen] at he
     obtain ⟨o, hl, hname⟩ := he
-    obtain ⟨hmem, _, _, hann, _⟩ := hobs.2 _ _ hl
+    obtain ⟨hmem, _, _, hann, _⟩ := hobs.2.1 _ _ hl
     have hk := hkind n.d (hn.fromDs n hnm) o hl
     exact ⟨o, hmem, hl, by simp [key, nkey, hk, hname], hann⟩
-  refine ⟨?_, ?_, ?_, ?_, ?_, ?_⟩
+  refine ⟨?_, ?_, ?_, ?_, ?_, ?_, ?_⟩
+  rotate_right
+  · rw [exec_patchRefs_objs, exec_patchRefs_foreign0]; exact hg3.frame
   · rw [exec_patchRefs_objs]; exact hg3.nodup
   · rw [exec_patchRefs_objs]; exact hg3.named
   · intro r; rw [exec_patchRefs_refs]; exact mem_refsOf named r
@@ -769,12 +839,14 @@ theorem named_name_ne {s0 : St} (hg : Good s0) {obs : Obs} (hobs : ObsOKp s0 s0.
     simp only [Entry, hgen] at he
     obtain ⟨o, hl, hname⟩ := he
     rw [hname]
-    exact hg.named o (hobs.2 _ _ hl).1
+    exact hg.named o (hobs.2.1 _ _ hl).1
 
-theorem Good.congr {s s' : St} (hg : Good s) (hr : s'.refs = s.refs) (ho : s'.objs = s.objs) : Good s' := by
-  refine ⟨ho ▸ hg.nodup, ho ▸ hg.named, ?_, ?_⟩
+theorem Good.congr {s s' : St} (hg : Good s) (hr : s'.refs = s.refs) (ho : s'.objs = s.objs)
+    (hf : s'.foreign0 = s.foreign0) : Good s' := by
+  refine ⟨ho ▸ hg.nodup, ho ▸ hg.named, ?_, ?_, ?_⟩
   · rw [hr, ho]; exact hg.noLeak
   · rw [hr, ho]; exact hg.obsUniq
+  · rw [hf, ho]; exact hg.frame
 
 theorem exec_statusPatch (s : St) : exec s .statusPatch = (s, .okRv s.xrRv) := by simp [exec]
 
@@ -782,9 +854,10 @@ theorem safe_composeFn {s : St} (hg : Good s) (lrv : Nat) (out : Obs → FnOut) 
     (ho : OutOK out) (hc : ChOK ch) : Safe sem Good (composeFn lrv s.refs out ch) s := by
   unfold composeFn
   apply safe_observeFn hg lrv _ s.refs [] [] (fun r h => h) (by intro r h; cases h)
-  · refine ⟨?_, ?_⟩
+  · refine ⟨?_, ?_, ?_⟩
     · intro o _ h; cases h
     · intro a o h; simp [obsLookup] at h
+    · intro p h; cases h
   · intro obs hobs
     simp only [List.nil_append] at hobs
     cases hout : out obs with
@@ -795,6 +868,13 @@ theorem safe_composeFn {s : St} (hg : Good s) (lrv : Nat) (out : Obs → FnOut) 
         (fun d h => h) (fun d h => Or.inl h) (by simpa using ho.nodup obs ds hout)
       intro named hnamed
       apply safe_gcFn lrv _ _ s hg
+      · -- garbage-collection targets are observed objects, and observed objects are not foreign
+        intro o ho x hx hkx
+        have ho' := (hc.gc _ _).mp ho
+        obtain ⟨⟨a, o2⟩, hmem, rfl⟩ := List.mem_map.mp ho'
+        obtain ⟨hm2, hc2⟩ := obs_elems_ok hobs (a, o2) (List.mem_filter.mp hmem).1
+        have : x = o2 := eq_of_key_eq hg.nodup hx hm2 hkx
+        exact this ▸ hc2
       intro s3 hsh hdead
       have hmid := mid_after_patch hg hobs hnamed (ho.kind obs ds hout) hsh
         (by intro o ho' o' ho'' hk; exact hdead o ((hc.gc _ _).mpr ho') o' ho'' hk)
@@ -828,7 +908,7 @@ theorem safe_reconcile_of_body {s : St} (hg : Good s) (m : Mode)
   have hgx : sem.exec s .getXR = (s, .xr s.xrFin s.xrRv s.refs) := exec_getXR s
   have haf : sem.exec s (.addFinalizer s.xrRv) = ({ s with xrFin := true, xrRv := s.xrRv + 1 }, .okRv (s.xrRv + 1)) :=
     exec_addFinalizer s
-  have hg1 : Good { s with xrFin := true, xrRv := s.xrRv + 1 } := hg.congr rfl rfl
+  have hg1 : Good { s with xrFin := true, xrRv := s.xrRv + 1 } := hg.congr rfl rfl rfl
   have hgetc : sem.errResp .conflict .getXR = .err := rfl
   simp only [Safe, hgx, hfail, hgetc]
   refine ⟨hg, ?_, trivial, trivial⟩
